@@ -86,7 +86,7 @@ Fixpoint view (t : ty) (bs : bytes) {struct t} : res value :=
       let os := flex_offset_size t l in
       let data := take (floor_mul (blen bs) (align (TFlex t l))) bs in
       do r <- unwrap_err
-                (flex_fold l os
+                (flex_fold l os (align (TFlex t l))
                    (fun (acc : list value) _ _ payload => do v <- view t payload; Ok (v :: acc))
                    (flex_fuel data) [] 0 data 0);
       Ok (VNode 0 (rev (fst r)))
@@ -143,7 +143,7 @@ Fixpoint size_m (t : ty) (bs : bytes) {struct t} : res N :=
       let data := take (floor_mul (blen bs) al) bs in
       (* bytes_iter().map(Result::unwrap).last(): remembers the last payload *)
       do r <- unwrap_err
-                (flex_fold l os
+                (flex_fold l os al
                    (fun (_ : option (N * bytes)) _ pa payload => Ok (Some (pa, payload)))
                    (flex_fuel data) None 0 data 0);
       match r with
